@@ -524,11 +524,15 @@ func c20Shortage(c *Ctx) {
 			}
 		}
 	})
+	// the flag: a local variable of refresh (possibly captured by the scan callback), or a
+	// field of the object that carries one scan's state
 	var flag *ssa.Alloc
+	var flagField *ssa.FieldAddr
 	okStore := len(stores) == 1
 	if okStore {
 		if ld, ok := stores[0].Val.(*ssa.UnOp); ok && ld.Op == token.MUL {
 			flag, _ = ld.X.(*ssa.Alloc)
+			flagField, _ = ld.X.(*ssa.FieldAddr)
 		}
 		for _, ret := range ir.NormalReturns(rf) {
 			if !ir.MustPassBefore(rf, ret, func(in ssa.Instruction) bool { return in == ssa.Instruction(stores[0]) }) {
@@ -536,49 +540,50 @@ func c20Shortage(c *Ctx) {
 			}
 		}
 	}
-	r.Check("C20.7", "rescan-assigned", okStore && flag != nil, c.U.Pos(rf.Pos()), "every scan leaves in c.rescan whether it ran out of descriptors (one assignment of the scan's own flag, on every path)")
+	r.Check("C20.7", "rescan-assigned", okStore && (flag != nil || flagField != nil), c.U.Pos(rf.Pos()), "every scan leaves in c.rescan whether it ran out of descriptors (one assignment of the scan's own flag, on every path)")
 	// where the flag becomes true
-	if flag != nil && flag.Referrers() != nil {
-		nTrue, okGuards, other := 0, true, false
-		seen := map[string]bool{}
-		check := func(fn *ssa.Function, st *ssa.Store) {
-			b, isConst := ir.ConstBool(st.Val)
-			if !isConst {
-				other = true
-				return
+	nTrue, okGuards, other := 0, true, false
+	seen := map[string]bool{}
+	check := func(fn *ssa.Function, st *ssa.Store) {
+		b, isConst := ir.ConstBool(st.Val)
+		if !isConst {
+			other = true
+			return
+		}
+		if !b {
+			return
+		}
+		nTrue++
+		// the block of the store is entered only through true edges of errors.Is(err, EMFILE/ENFILE)
+		var es []ir.Edge
+		for _, iff := range ir.Ifs(fn) {
+			call, isCall := iff.Cond.(*ssa.Call)
+			if !isCall || call.Call.StaticCallee() == nil || call.Call.StaticCallee().String() != "errors.Is" || len(call.Call.Args) != 2 {
+				continue
 			}
-			if !b {
-				return
+			mi, isMI := call.Call.Args[1].(*ssa.MakeInterface)
+			if !isMI {
+				continue
 			}
-			nTrue++
-			// the block of the store is entered only through true edges of errors.Is(err, EMFILE/ENFILE)
-			var es []ir.Edge
-			for _, iff := range ir.Ifs(fn) {
-				call, isCall := iff.Cond.(*ssa.Call)
-				if !isCall || call.Call.StaticCallee() == nil || call.Call.StaticCallee().String() != "errors.Is" || len(call.Call.Args) != 2 {
-					continue
-				}
-				mi, isMI := call.Call.Args[1].(*ssa.MakeInterface)
-				if !isMI {
-					continue
-				}
-				k, isConst := mi.X.(*ssa.Const)
-				if !isConst || k.Value == nil {
-					continue
-				}
-				for _, errno := range []string{"EMFILE", "ENFILE"} {
-					if sp := c.U.Prog.ImportedPackage("syscall"); sp != nil {
-						if obj, ok := sp.Pkg.Scope().Lookup(errno).(*types.Const); ok && constant.Compare(obj.Val(), token.EQL, k.Value) {
-							seen[errno] = true
-							es = append(es, ir.Edge{From: iff.Block(), Succ: 0})
-						}
+			k, isConst := mi.X.(*ssa.Const)
+			if !isConst || k.Value == nil {
+				continue
+			}
+			for _, errno := range []string{"EMFILE", "ENFILE"} {
+				if sp := c.U.Prog.ImportedPackage("syscall"); sp != nil {
+					if obj, ok := sp.Pkg.Scope().Lookup(errno).(*types.Const); ok && constant.Compare(obj.Val(), token.EQL, k.Value) {
+						seen[errno] = true
+						es = append(es, ir.Edge{From: iff.Block(), Succ: 0})
 					}
 				}
 			}
-			if len(es) == 0 || !ir.OnlyViaEdges(fn, st, es) {
-				okGuards = false
-			}
 		}
+		if len(es) == 0 || !ir.OnlyViaEdges(fn, st, es) {
+			okGuards = false
+		}
+	}
+	switch {
+	case flag != nil && flag.Referrers() != nil:
 		for _, ref := range *flag.Referrers() {
 			switch x := ref.(type) {
 			case *ssa.Store:
@@ -599,6 +604,24 @@ func c20Shortage(c *Ctx) {
 				}
 			}
 		}
+	case flagField != nil:
+		// every store to that field of that struct type, anywhere in the package
+		st0 := ir.StructOf(flagField.X.Type())
+		for _, fn := range c.U.RepoFuncs("cdi") {
+			fn := fn
+			ir.Instrs(fn, func(in ssa.Instruction) {
+				st, ok := in.(*ssa.Store)
+				if !ok {
+					return
+				}
+				fa, ok := st.Addr.(*ssa.FieldAddr)
+				if ok && fa.Field == flagField.Field && st0 != nil && types.Identical(ir.StructOf(fa.X.Type()), st0) {
+					check(fn, st)
+				}
+			})
+		}
+	}
+	if flag != nil || flagField != nil {
 		r.Check("C20.7", "flag-set-on-shortage", nTrue >= 1 && okGuards && !other && seen["EMFILE"] && seen["ENFILE"], c.U.Pos(rf.Pos()),
 			fmt.Sprintf("the flag becomes true exactly where the scan reports an error that is EMFILE or ENFILE (%d setting site(s), errno tests seen: %v)", nTrue, keysOf(seen)))
 	}
